@@ -202,11 +202,15 @@ def equiv (j : Json) : Except String Json := do
   let fuel ← j.getObjValAs? Nat "fuel"
   let steps ← j.getObjValAs? Nat "steps"
   let pool ← poolOf (← j.getObjVal? "pool")
+  let env := envF seed pool
+  let (st, r) := runProgram FloatSem.sem env prog fuel 0.0
+  let srcOutcome0 := match r with | .ok _ => "done" | .error e => errStr e
+  if srcOutcome0.startsWith "unbound" || srcOutcome0.startsWith "fault" then
+    pure (Json.mkObj [("verdict", Json.str "src-undefined"), ("src_outcome", Json.str srcOutcome0)])
+  else
   match parseProgram text with
   | .error e => pure (Json.mkObj [("verdict", Json.str "parse-error"), ("detail", Json.str e)])
   | .ok pp =>
-    let env := envF seed pool
-    let (st, r) := runProgram FloatSem.sem env prog fuel 0.0
     let (s, m, n) := runMon env pp.prog steps initSt {} 0
     let ts := st.trace.reverse
     let ti := s.trace.reverse
